@@ -2745,6 +2745,10 @@ JANET_CORE_FN(os_open,
         open_flags |= O_WRONLY;
     } else {
         open_flags |= O_RDWR;
+        if (!read_flag && !write_flag) {
+            /* No access mode given: the file is opened for both */
+            janet_sandbox_assert(JANET_SANDBOX_FS_READ | JANET_SANDBOX_FS_WRITE);
+        }
     }
 
     do {
